@@ -172,3 +172,33 @@ Proof.
     apply (step_preserves_frozen_marginal shape grids pops Hwf Hgl Hsh Hg f i pf Hf Hpf Hfr Hi0 Hint this_dt); [lra|].
     apply Hns. exact Hd.
 Qed.
+
+(** ... and the time-dependent driver: sizes, selection, dominance, migration of the other populations and theta0
+    may vary in time in any way; population f is frozen throughout *)
+Theorem integrate_tdep_preserves_frozen_marginal shape grids popsf thetaf f i dj tf :
+  (forall s, wf_pops shape (popsf s)) -> length grids = length shape -> (forall n, In n shape -> (2 <= n)%nat) ->
+  (forall k, (k < length shape)%nat ->
+     length (nth k grids []) = ax_len shape k /\ (2 <= ax_len shape k)%nat /\
+     (forall j, (j < length (nth k grids []) - 1)%nat -> 0 < dx (nth k grids []) j)) ->
+  (f < length shape)%nat -> (forall s, exists pf, nth_error (popsf s) f = Some pf /\ p_frozen pf = true) -> i <> 0%nat ->
+  nthF (nth f grids []) i <> 0 /\ nthF (nth f grids []) i <> 1 ->
+  0 < tf -> (forall s dt, 0 < dt -> nonsingular shape grids (popsf s) dj dt) ->
+  forall fuel t T phi res,
+  integrate_tdep fuel shape grids popsf thetaf tf dj t T phi = Some res ->
+  marginal_at shape grids f i res = marginal_at shape grids f i phi.
+Proof.
+  intros Hwf Hgl Hsh Hg Hf Hpf Hi0 Hint Htf Hns.
+  induction fuel as [|fuel IH]; intros t T phi res Hres; cbn [integrate_tdep] in Hres;
+    unfold nltb in Hres; numR.
+  - destruct (Rleb T t); cbn [negb] in Hres; [injection Hres as <-; reflexivity | discriminate].
+  - destruct (Rleb T t) eqn:ET; cbn [negb] in Hres; [injection Hres as <-; reflexivity|].
+    apply Rleb_false in ET.
+    set (this_dt := match dt_of tf (popsf t) with Some dt => nmin dt (T - t) | None => T - t end) in *.
+    assert (Hd : 0 < this_dt).
+    { unfold this_dt. destruct (dt_of tf (popsf t)) as [dt|] eqn:E; [|lra].
+      pose proof (dt_of_pos tf Htf (popsf t) dt E). unfold nmin. numR. destruct (Rleb dt (T - t)); lra. }
+    rewrite (IH _ _ _ _ Hres).
+    destruct (Hpf (t + this_dt)) as (pf & Hpf1 & Hpf2).
+    apply (step_preserves_frozen_marginal shape grids (popsf (t + this_dt)) (Hwf _) Hgl Hsh Hg f i pf Hf Hpf1 Hpf2 Hi0 Hint this_dt); [lra|].
+    apply Hns. exact Hd.
+Qed.
